@@ -193,6 +193,41 @@ class Repo:
             names.update(m.symbols)
             names.update(m.imports)
         set_literal_names(names)
+        for m in self.modules.values():
+            m.repo = self
+        from . import match as _match
+        _match.FOLD = _fold_via_module
+
+    def _fold_constant(self, node):
+        """value of `self.X` / `Cls.X` / module-level `X` when it is an int
+        constant (used by the matcher for literal-vs-named-constant)"""
+        from .evalx import Evaluator, Obj
+        mod = getattr(node, "_module", None)
+        if mod is None:
+            raise ValueError("no module")
+        ci = self.enclosing_class(node)
+        cands = [ci] if ci is not None else [
+            c for c in self.classes.values() if c.module is mod]
+        if not (isinstance(node, ast.Attribute) and isinstance(
+                node.value, ast.Name) and node.value.id in ("self", "cls")):
+            cands = cands[:1] or [None]
+        vals = set()
+        for c in cands:
+            ev = Evaluator(self, mod, c)
+            env = {}
+            if c is not None:
+                env["self"] = Obj(c)
+                env["cls"] = Obj(c)
+            try:
+                v = ev.eval(node, env)
+            except Exception:
+                continue
+            if isinstance(v, bool) or not isinstance(v, int):
+                continue
+            vals.add(v)
+        if len(vals) != 1:
+            raise ValueError("not a unique int constant")
+        return vals.pop()
 
     # ---------------------------------------------------------- lookup
     def module(self, name):
@@ -432,6 +467,16 @@ class Repo:
             for n in ast.walk(m.tree):
                 if isinstance(n, FUNC):
                     yield n
+
+
+def _fold_via_module(node):
+    """the matcher's constant folder: uses the repository the node's module
+    belongs to (several Repo objects may exist in one process)"""
+    mod = getattr(node, "_module", None)
+    repo = getattr(mod, "repo", None)
+    if repo is None:
+        raise ValueError("node without repository")
+    return repo._fold_constant(node)
 
 
 def parents(node):
